@@ -27,6 +27,7 @@ def describe(f):
 def run(ctx):
     if ctx.only is None:
         vlib.tlc_mc(ctx, "OrderedKV_MC", "OrderedKV_MC.cfg", coverage=True, allow_zero=("Compact",))
+        vlib.tlc_mc(ctx, "OrderedKV_MC", "OrderedKV_MC_lemma.cfg", label="lemma")
         r = vlib.tlc_mc(ctx, "OrderedKV_MC", "OrderedKV_MC_plusone.cfg", label="plusone", expect_violation=True)
         if not r["violated"] or "Lemma" not in r["violated"]:
             raise vlib.Infra("sensitivity: the prefix bound without carry no longer violates the bounds lemma")
